@@ -82,6 +82,21 @@ Theorem C18_cursor_meaning : forall (P : Type) (tr : list (apoll P)) c dn,
 Proof. exact cursor_meaning. Qed.
 Print Assumptions C18_cursor_meaning.
 
+(* A sweep is 252 calls: from any state and against any environment, every address 0..125 is
+   probed within any 252 consecutive transmit_telegram calls.  The models have no HighPrioOnly
+   input - both applications ignore it (DESIGN O4), the correspondence varies it - so no call
+   pattern of the FDL layer can make an address be skipped.  The ground-truth oracle of the check
+   (converges_to_population) measures "stable for two sweeps" in calls on this basis. *)
+Theorem C18_sweep_covers : forall ts s h s' tr, addr_ok ts -> ll_rep s -> ll_run ts s h = Ok (s', tr) ->
+  (sweep_polls <= length h)%nat -> forall a, 0 <= a <= 125 -> In a (probed (map ll_abs tr)).
+Proof. exact ll_sweep_covers. Qed.
+Print Assumptions C18_sweep_covers.
+
+Theorem C18_sweep_covers_scanner : forall ts s h s' tr, addr_ok ts -> sc_rep s -> sc_run ts s h = Ok (s', tr) ->
+  (sweep_polls <= length h)%nat -> forall a, 0 <= a <= 125 -> In a (probed (map sc_abs tr)).
+Proof. exact sc_sweep_covers. Qed.
+Print Assumptions C18_sweep_covers_scanner.
+
 (* ------------------------------------------------------------------ convergence *)
 
 (* From ANY state: if the reactions observed during a window of at least one sweep (252
